@@ -24,8 +24,7 @@ Theorem read_error_safe :
     let r := sync_stripe hashf bs nlev o now iob c par fs faults pos in
     so_bail r = false ->
     so_write r = None
-    /\ (forall k, slot_invalid_parity (slot_of (so_content r) pos k) = slot_invalid_parity (slot_of c pos k)
-                  /\ slot_has_file (slot_of (so_content r) pos k) = slot_has_file (slot_of c pos k))
+    /\ (forall k, slot_of (so_content r) pos k = slot_of c pos k)
     /\ (nth pos (c_info (so_content r)) None = nth pos (c_info c) None
         \/ nth pos (c_info (so_content r)) None = mark_bad (nth pos (c_info c) None))
     /\ (nth j faults None = Some RdIoCont ->
